@@ -248,6 +248,143 @@ func closeCodes() ([]string, bool) {
 	return out, len(out) == 3
 }
 
+// ---- template tokenizers and character classes (C20 / C03) ----
+
+func strLit(e ast.Expr) (string, bool) {
+	bl, ok := e.(*ast.BasicLit)
+	if !ok || bl.Kind != token.STRING {
+		return "", false
+	}
+	s, err := strconv.Unquote(bl.Value)
+	return s, err == nil
+}
+
+func coqByteLists(ss []string) string {
+	parts := make([]string, 0, len(ss))
+	for _, s := range ss {
+		parts = append(parts, strings.TrimSuffix(coqBytes(s), "%N"))
+	}
+	return "[" + strings.Join(parts, "; ") + "]%N"
+}
+
+// strictDelims: `var tnext = map[tstate]string{tsegment: "/{", ...}` of internal/httprule/tokenize.go, in the iota order of
+// the tstate constants
+func strictDelims() ([]string, bool) {
+	_, f := parse("internal/httprule/tokenize.go")
+	if f == nil {
+		return nil, false
+	}
+	order := map[string]int{}
+	vals := map[string]string{}
+	for _, d := range f.Decls {
+		gd, ok := d.(*ast.GenDecl)
+		if !ok {
+			continue
+		}
+		if gd.Tok == token.CONST {
+			for i, sp := range gd.Specs {
+				vs := sp.(*ast.ValueSpec)
+				if i == 0 {
+					if id, ok := vs.Type.(*ast.Ident); !ok || id.Name != "tstate" {
+						break
+					}
+				}
+				for _, n := range vs.Names {
+					order[n.Name] = i
+				}
+			}
+		}
+		if gd.Tok == token.VAR {
+			for _, sp := range gd.Specs {
+				vs := sp.(*ast.ValueSpec)
+				if len(vs.Names) != 1 || vs.Names[0].Name != "tnext" || len(vs.Values) != 1 {
+					continue
+				}
+				cl, ok := vs.Values[0].(*ast.CompositeLit)
+				if !ok {
+					return nil, false
+				}
+				for _, el := range cl.Elts {
+					kv, ok := el.(*ast.KeyValueExpr)
+					if !ok {
+						return nil, false
+					}
+					k, ok1 := kv.Key.(*ast.Ident)
+					v, ok2 := strLit(kv.Value)
+					if !ok1 || !ok2 {
+						return nil, false
+					}
+					vals[k.Name] = v
+				}
+			}
+		}
+	}
+	if len(vals) != 3 || len(order) != 3 {
+		return nil, false
+	}
+	out := make([]string, 3)
+	for k, v := range vals {
+		i, ok := order[k]
+		if !ok || i > 2 {
+			return nil, false
+		}
+		out[i] = v
+	}
+	return out, true
+}
+
+// gwDelims: the string arguments of the strings.IndexAny calls in gwbased's tokenize, in source order
+func gwDelims() ([]string, bool) {
+	_, f := parse("internal/httprule/gwbased/parse.go")
+	fd := findFunc(f, "tokenize")
+	if fd == nil {
+		return nil, false
+	}
+	var out []string
+	ast.Inspect(fd, func(n ast.Node) bool {
+		ce, ok := n.(*ast.CallExpr)
+		if !ok || len(ce.Args) != 2 {
+			return true
+		}
+		if se, ok := ce.Fun.(*ast.SelectorExpr); ok && se.Sel.Name == "IndexAny" {
+			if s, ok := strLit(ce.Args[1]); ok {
+				out = append(out, s)
+			}
+		}
+		return true
+	})
+	return out, len(out) == 3
+}
+
+// pcharMarks: the character literals of the `switch <ident> { case 'x', 'y': ... }` statements of a pchar checker, '%' excluded
+func pcharMarks(rel, fn string) (string, bool) {
+	_, f := parse(rel)
+	fd := findFunc(f, fn)
+	if fd == nil {
+		return "", false
+	}
+	var out []byte
+	ast.Inspect(fd, func(n ast.Node) bool {
+		sw, ok := n.(*ast.SwitchStmt)
+		if !ok || sw.Tag == nil {
+			return true
+		}
+		if _, ok := sw.Tag.(*ast.Ident); !ok {
+			return true
+		}
+		for _, st := range sw.Body.List {
+			cc := st.(*ast.CaseClause)
+			for _, e := range cc.List {
+				if ch, ok := charLit(e); ok && ch != '%' && ch < 256 {
+					out = append(out, byte(ch))
+				}
+			}
+		}
+		return true
+	})
+	return string(out), len(out) > 0
+}
+
 func emit(b *strings.Builder, name, typ, val, fallback string, ok bool) {
 	if !ok {
 		fallbacks = append(fallbacks, name)
@@ -299,6 +436,22 @@ func main() {
 		ccs = append(ccs, c+"%Z")
 	}
 	emit(&b, "ws_close_codes", "list Z", "["+strings.Join(ccs, "; ")+"]", "[1000%Z; 1001%Z; 1003%Z]", ok)
+
+	// template tokenizers / character classes of both parsers
+	sd, ok := strictDelims()
+	emit(&b, "strict_delims", "list (list N)", coqByteLists(sd), coqByteLists([]string{"/{", ".=}", "/}"}), ok)
+	gd, ok := gwDelims()
+	emit(&b, "gw_delims", "list (list N)", coqByteLists(gd), coqByteLists([]string{"/{", ".=}", "/}"}), ok)
+	pm, ok := pcharMarks("internal/httprule/parse.go", "consumePchar")
+	emit(&b, "strict_pchar_marks", "list N", coqBytes(pm), coqBytes("-._~!$&'()*+,;=:@"), ok)
+	pm, ok = pcharMarks("internal/httprule/gwbased/parse.go", "expectPChars")
+	emit(&b, "gw_pchar_marks", "list N", coqBytes(pm), coqBytes("-._~!$&'()*+,;=:@"), ok)
+	se := stringConsts("internal/httprule/parse.go", "eof")
+	v, ok = se["eof"]
+	emit(&b, "strict_eof", "list N", coqBytes(v), coqBytes("\x00"), ok)
+	se = stringConsts("internal/httprule/gwbased/parse.go", "eof")
+	v, ok = se["eof"]
+	emit(&b, "gw_eof", "list N", coqBytes(v), coqBytes("\x00"), ok)
 
 	sort.Strings(fallbacks)
 	fmt.Fprintf(&b, "\n(* fallbacks: %s *)\n", strings.Join(fallbacks, " "))
